@@ -61,6 +61,9 @@ def _lib():
         "VonMises": D.VonMisesDistribution,
         "ScipyGamma": GammaScipy,
         "ScipyGumbel": GumbelScipy,  # appended: the indices of the other carriers (`% 7` below) stay what they were
+        # the log-normal with the (mean, standard deviation) parametrisation: a shipped subclass with its own
+        # parameter names (mu_norm, sigma_norm) and closed-form fit; not in distributions.__all__
+        "LogNormalNormFit": D.LogNormalNormFitDistribution,
     }
     return virocon, fams
 
@@ -69,7 +72,7 @@ V, FAM = _lib()
 FAMILIES = list(FAM)
 PARAMS = {f: list(FAM[f]().parameters) for f in FAMILIES}
 FIXVAL = {"alpha": 1.5, "beta": 2.0, "gamma": 0.0, "mu": 0.5, "sigma": 0.4, "delta": 1.2, "m": 1.5,
-          "c": 1.2, "lambda_": 1.0, "kappa": 2.0, "a": 2.0, "loc": 0.0, "scale": 1.0}
+          "c": 1.2, "lambda_": 1.0, "kappa": 2.0, "a": 2.0, "loc": 0.0, "scale": 1.0, "mu_norm": 2.0, "sigma_norm": 0.5}
 CHEAP = ["Weibull", "LogNormal", "Normal"]
 
 
@@ -344,9 +347,10 @@ def injections(d, i, n):
     c = make_conditional(d, i)
     out.append(("unknown_param", "foo", dict(c, dep=c["dep"] + ["foo"])))
     out.append(("unknown_param", "only", dict(c, dep=["foo"])))
-    for p in (names[0], names[-1]):
+    for p in names:  # every parameter of the family in turn is the offending one
         out.append(("param_both", p, dict(c, fixed=[p])))
         out.append(("param_neither", p, dict(c, dep=[q for q in c["dep"] if q != p])))
+    out.append(("param_neither", "empty_dict", dict(c, dep=[])))  # "parameters": {}
     out.append(("cond_on_self", "", dict(c, cond=["int", i])))
     for k in range(i + 1, n):
         out.append(("cond_on_later", str(k), dict(c, cond=["int", k])))
@@ -438,7 +442,7 @@ def pair_cases(rng, n_cases=None):
         n = int(rng.integers(1, 5))
         st = structures(n)
         c = st[int(rng.integers(0, len(st)))]
-        dims = [base_dim(FAMILIES[int(rng.integers(0, 7))], c[k]) for k in range(n)]
+        dims = [base_dim(FAMILIES[int(rng.integers(0, len(FAMILIES)))], c[k]) for k in range(n)]
         i = int(rng.integers(0, n))
         j = int(rng.integers(i, n))
         allp = list(pair_at(dims, i, j, n))
@@ -966,12 +970,30 @@ def _fit_variants(base, n, c, i, fam):
         yield var("single:fit_desc_length", fit_descs=[None] * L)
     yield var("single:no_method", fit_descs=descs_with(i, {"weights": ["none"]}))
     yield var("single:no_method", fit_descs=descs_with(i, {}))
-    for mth in (["str", "foo"], ["str", "ml"], ["str", ""], ["int"], ["none_value"]):
-        if mth[0] == "none_value":
-            continue
+    for mth in (["str", "foo"], ["str", "ml"], ["str", ""], ["int"], ["none"]):  # ["none"]: "method": None
         yield var("single:unknown_method", fit_descs=descs_with(i, {"method": mth}))
     for w in (["str", "foo"], ["str", "square"], ["int"], ["array_nan"], ["array_inf"]):
         yield var("single:unknown_weights", fit_descs=descs_with(i, {"method": ["str", "wlsq"], "weights": w}))
+    for w in (["str", "foo"], ["int"]):  # plain least squares reads the weights keyword as well
+        yield var("single:unknown_weights", fit_descs=descs_with(i, {"method": ["str", "lsq"], "weights": w}))
+    if fam == "ExpWeibull":
+        # least squares of the exponentiated Weibull is only implemented with no parameter or only delta fixed
+        for fx, ok in ((["delta"], True), (["alpha"], False), (["beta"], False), (["alpha", "delta"], False)):
+            for mth in ("lsq", "wlsq"):
+                x = var("neighbour:lsq_fixed_delta" if ok else "single:lsq_unsupported",
+                        fit_descs=descs_with(i, {"method": ["str", mth], "weights": ["str", "linear"]}))
+                d = x["dims"][i]
+                d["fixed"] = list(fx)
+                if d["cond"] is not None:
+                    d["dep"] = [p for p in d["dep"] if p not in fx]
+                yield x
+            if not ok:  # ... maximum likelihood has no such restriction
+                x = var("neighbour:mle_fixed", fit_descs=descs_with(i, {"method": ["str", "mle"]}))
+                d = x["dims"][i]
+                d["fixed"] = list(fx)
+                if d["cond"] is not None:
+                    d["dep"] = [p for p in d["dep"] if p not in fx]
+                yield x
     if fam != "ExpWeibull":
         yield var("single:lsq_unsupported", fit_descs=descs_with(i, {"method": ["str", "lsq"]}))
     if c[i] is not None:
@@ -1251,11 +1273,40 @@ def eval_model(n, variant=0):
     return V.GlobalHierarchicalModel(descs)
 
 
+LIM_VALUES = {
+    # well-formed (min, max) in the forms a user writes them: all `LimTag.tuple 2` for the model
+    "t2": (0, 4), "t2f": (0.0, 4.0), "t2l": [0, 4], "t2a": ("array", [0.0, 4.0]), "t2np": ("npints", [0, 4]),
+    # two entries that are not numbers (`LimTag.nonNumeric`)
+    "e_none0": (None, 4), "e_none1": (0, None), "e_str": "ab", "e_strs": ("0", "4"), "e_nested": ((0, 1), (2, 3)),
+    # two numbers, one of them not finite (`LimTag.nonFinite`)
+    "x_nan0": (float("nan"), 4), "x_nan1": (0, float("nan")), "x_inf": (0, float("inf")),
+    "x_ninf": (float("-inf"), 4),
+}
+
+
 def lim_value(t):
     if t == "s":
         return 4
+    if t in LIM_VALUES:
+        v = LIM_VALUES[t]
+        if isinstance(v, tuple) and len(v) == 2 and v[0] == "array":
+            return np.array(v[1])
+        if isinstance(v, tuple) and len(v) == 2 and v[0] == "npints":
+            return (np.int64(v[1][0]), np.int64(v[1][1]))
+        return v
     k = int(t[1:])
-    return tuple([0, 4, 5, 6][:k]) if k != 2 else (0, 4)
+    return tuple([0, 4, 5, 6][:k])
+
+
+def lim_tok(t):
+    """token for the model"""
+    if t in LIM_VALUES:
+        return "t2" if t.startswith("t2") else t[0]
+    return t
+
+
+def lim_ok(t):
+    return t in LIM_VALUES and t.startswith("t2")
 
 
 def dval_value(v):
@@ -1295,6 +1346,25 @@ def grid_cases(rng, thorough):
                 yield var("pair:limit_tuple+deltas_length", lims, ["l"] + ["p"] * (n + 1))
                 yield var("pair:limit_tuple+delta_value", lims, ["l"] + ["p"] * (n - 1) + ["z"])
                 yield var("pair:limit_tuple+delta_value", lims, ["l"] + ["n"] + ["p"] * (n - 1))
+        # value-level variants of one limit entry: other spellings of a well-formed (min, max); entries that are
+        # not numbers; non-finite entries - each with given and with default deltas
+        for i in range(n):
+            for t in LIM_VALUES:
+                if t == "t2":
+                    continue
+                lims = list(ok_l)
+                lims[i] = t
+                for df in (["s", "p"], None, ["l"] + ["p"] * n):
+                    if df is None and lim_ok(t) and n > 1:
+                        continue  # default deltas: 400 cells per axis, only computed for one dimension
+                    yield var("neighbour:limit_spelling" if lim_ok(t) else "single:limit_entry", lims, df)
+                if not lim_ok(t) and i + 1 < n:
+                    l2 = list(lims)
+                    l2[n - 1] = "t3"
+                    yield var("pair:limit_entry+limit_tuple", l2, ["s", "p"])
+        for cont in ("tuple", "array"):
+            yield {"entry": "grid", "gen": "neighbour:limits_container", "n_dim": n, "limits": list(ok_l),
+                   "deltas": ["s", "p"], "limits_container": cont}
         for L in sorted({0, n - 1, n + 1, n + 3}):
             if L != n:
                 for form in ("l", "tuple", "array"):
@@ -1315,7 +1385,7 @@ def grid_line(case):
     if case["limits"] is None:
         toks += ["-"]
     else:
-        toks += [str(len(case["limits"]))] + list(case["limits"])
+        toks += [str(len(case["limits"]))] + [lim_tok(t) for t in case["limits"]]
     d = case["deltas"]
     if d is None:
         toks += ["-"]
@@ -1329,7 +1399,7 @@ def grid_line(case):
 def wf_grid(case):
     n = case["n_dim"]
     if case["limits"] is not None:
-        if len(case["limits"]) != n or any(t != "t2" for t in case["limits"]):
+        if len(case["limits"]) != n or any(not lim_ok(t) for t in case["limits"]):
             return False
     d = case["deltas"]
     if d is None:
@@ -1343,6 +1413,10 @@ def run_grid(case, models):
     n = case["n_dim"]
     m = models[n]
     limits = None if case["limits"] is None else [lim_value(t) for t in case["limits"]]
+    if case.get("limits_container") == "tuple":
+        limits = tuple(limits)
+    elif case.get("limits_container") == "array":
+        limits = np.array(limits)
     d = case["deltas"]
     if d is None:
         deltas = None
